@@ -23,11 +23,14 @@ impl VM {
                 let n = old(self).stack@.len() as int;
                 let f = old(self).stack@.last();
                 let base = n - 1 - argc;
-                let ok = base <= 0xFFFF && spec_tag(f) == Type::Function && argc <= spec_fn_locals(f);
+                // room: the new base pointer fits 16 bits AND no more than 65535 calls are nested (a function without
+                // parameters and locals takes no slots per call: O05 / fix 854c8cf)
+                let room = base <= 0xFFFF && old(self).frames@.len() <= 0xFFFF;
+                let ok = room && spec_tag(f) == Type::Function && argc <= spec_fn_locals(f);
                 &&& (ok <==> r is Ok)
-                &&& (base > 0xFFFF ==> r matches Err(Error::ArgumentError(_)))
-                &&& (base <= 0xFFFF && spec_tag(f) != Type::Function ==> r matches Err(Error::TypeError(_)))
-                &&& (base <= 0xFFFF && spec_tag(f) == Type::Function && argc > spec_fn_locals(f) ==> r matches Err(Error::ArgumentError(_)))
+                &&& (!room ==> r matches Err(Error::ArgumentError(_)))
+                &&& (room && spec_tag(f) != Type::Function ==> r matches Err(Error::TypeError(_)))
+                &&& (room && spec_tag(f) == Type::Function && argc > spec_fn_locals(f) ==> r matches Err(Error::ArgumentError(_)))
                 &&& (r is Ok ==> {
                     &&& final(self).bp == base
                     &&& final(self).ip == spec_fn_ip(f)
@@ -44,7 +47,7 @@ impl VM {
             }),
     {
 //@LOOP 1 invariant old(self).stack@.len() >= 1, self.frames == old(self).frames, self.globals == old(self).globals, self.instructions == old(self).instructions, self.ip == old(self).ip + 1, self.bp == old(self).bp, num_locals >= num_args as u32, num_locals <= 0xFFFF, self.stack@.len() == old(self).stack@.len() - 1 + __it.index@, self.stack@.subrange(0, old(self).stack@.len() - 1) =~= old(self).stack@.drop_last(), forall|i: int| old(self).stack@.len() - 1 <= i < self.stack@.len() ==> self.stack@[i] == spec_null(),
-//@ARM file=vm.rs fn=run_code impl=VM arm="OpCode::Call" rules="R1;R2;R4;R10;R3[u16::MAX as usize=>0xFFFFusize]"
+//@ARM file=vm.rs fn=run_code impl=VM arm="OpCode::Call" rules="R1;R2;R4;R10;R8[u16::MAX as usize=>0xFFFFusize]"
         Ok(())
     }
 
